@@ -913,10 +913,11 @@ impl StoryState {
         path: &Path,
         incrementing_turn_index: bool,
     ) -> Result<(), StoryError> {
+        let mut new_pointer = Story::pointer_at_path(&self.main_content_container, path)?;
+
         // Changing direction, assume we need to clear current set of choices
         self.current_flow.current_choices.clear();
 
-        let mut new_pointer = Story::pointer_at_path(&self.main_content_container, path)?;
         if !new_pointer.is_null() && new_pointer.index == -1 {
             new_pointer.index = 0;
         }
@@ -1005,6 +1006,28 @@ impl StoryState {
             .current_pointer = Pointer::start_of(func_container);
 
         self.pass_arguments_to_evaluation_stack(arguments)?;
+
+        Ok(())
+    }
+
+    /// The argument kinds accepted by `pass_arguments_to_evaluation_stack`,
+    /// checked up front by the entry points that must not fail half way.
+    pub fn check_arguments(arguments: Option<&Vec<ValueType>>) -> Result<(), StoryError> {
+        if let Some(arguments) = arguments {
+            for arg in arguments {
+                match arg {
+                    ValueType::Bool(_)
+                    | ValueType::Int(_)
+                    | ValueType::Float(_)
+                    | ValueType::List(_)
+                    | ValueType::String(_) => {}
+                    _ => {
+                        return Err(StoryError::InvalidStoryState("ink arguments when calling EvaluateFunction / ChoosePathStringWithParameters must be \
+                        int, float, string, bool or InkList.".to_owned()));
+                    }
+                }
+            }
+        }
 
         Ok(())
     }
